@@ -1820,7 +1820,8 @@ class ConstrainedQuadraticModel(cyConstrainedQuadraticModel):
 
             for label, constraint in self.constraints.items():
                 # put everything in a constraints/label/ directory
-                lstr = json.dumps(serialize_variable(label))
+                # '/' separates directories in the archive, so it is written as its JSON escape
+                lstr = json.dumps(serialize_variable(label)).replace('/', '\\u002f')
 
                 with zf.open(f'constraints/{lstr}/lhs', "w", force_zip64=True) as fdst:
                     constraint.lhs._into_file(fdst)
